@@ -270,11 +270,41 @@ def run_process_case(c):
     return obs
 
 
+def start_wait_race(trials=2500):
+    """wait() / as_completed() called as soon as start() has returned (the new thread may not have begun to run)"""
+    from mpservice.threading import Thread, as_completed, wait
+    old = sys.getswitchinterval()
+    sys.setswitchinterval(1e-6)
+    bad = None
+    try:
+        for i in range(trials):
+            t = Thread(target=lambda: None)
+            t.start()
+            try:
+                if i % 2:
+                    wait([t], timeout=10)
+                else:
+                    list(as_completed([t], timeout=10))
+            except Exception as e:  # noqa
+                bad = f'trial {i}: {"wait" if i % 2 else "as_completed"}([t]) right after t.start() raised {e!r}'
+            t.join()
+            if bad:
+                break
+    finally:
+        sys.setswitchinterval(old)
+    return bad
+
+
 def run_thread_case(c):
     from mpservice.threading import Thread, as_completed, wait
     t = Thread(target=thread_target, args=(c['kind'], c['arg']))
     t.handle_exception = staticmethod(lambda exc: None)
     t.start()
+    if c.get('race'):
+        r = start_wait_race()
+        if r:
+            t.join()
+            return {'future': classify(call_wd(t.result, 10)[:2]), 'done': True, 'problems': [r]}
     res = {'join': call_wd(t.join, 10)[:2], 'result': call_wd(t.result, 10)[:2], 'exception': call_wd(t.exception, 10)[:2]}
     d, nd = wait([t], timeout=10)
     obs = {'future': classify(res['result']), 'done': t.done(), 'problems': []}
@@ -321,6 +351,7 @@ def gen_cases(rng, n):
                           'first': ['join', 'result', 'exception', 'join'][i % 4]})
     for k, a in endings + [(8, 6), (10, 5), (11, 5)]:
         cases.append({'kind': k, 'arg': a, 'phase': 'none', 'sig': 15, 'thread': True, 'first': 'join'})
+    cases.append({'kind': 0, 'arg': 9, 'phase': 'none', 'sig': 15, 'thread': True, 'first': 'join', 'race': True})
     # every ending without a kill and the kills at the discrete points of the protocol run in every tier; the rest is sampled
     base = [c for c in cases if c['phase'] in ('none', 'mid', 'between', 'after')]
     rest = [c for c in cases if c['phase'] not in ('none', 'mid', 'between', 'after')]
